@@ -26,3 +26,16 @@ func (c *Capture) VerifAddToFlowLogV6(epHash capturetypes.EPHashV6, pktType byte
 // VerifFlowLog returns the capture's live flow log (read access through the
 // exported FlowsV4/FlowsV6/Len methods).
 func (c *Capture) VerifFlowLog() *FlowLog { return c.flowLog }
+
+// VerifBufState exposes the positions of a LocalBuffer (read only; C23): bytes
+// written since the last Reset, read position, current length of the data slice.
+func VerifBufState(l *LocalBuffer) (writePos, readPos, dataLen int) {
+	return l.writeBufPos, l.readBufPos, len(l.data)
+}
+
+// VerifBufData returns the data slice currently assigned to a LocalBuffer (what
+// bufferPackets hands back to the lock / pool on release; C23).
+func VerifBufData(l *LocalBuffer) []byte { return l.data }
+
+// VerifBufElementAddSize is the per-item overhead the buffer accounts for (read only).
+const VerifBufElementAddSize = bufElementAddSize
